@@ -333,6 +333,8 @@ def run(F, rep, tier):
     objflags.rule(F, rep, "C02.R4")
     rule_r5(F, rep)
     rule_r6(F, rep)
+    from . import c07
+    c07.rule_r5(F, rep)      # super / +: inside a field resolve from the layer the field was found in
     from . import visibility
     visibility.rule(F, rep, "C07.R4")
     rep.assume("value-level semantics (arithmetic results, environments, defaults, inheritance) are not decided: "
